@@ -6,6 +6,7 @@ import NutsProofs.Lemmas.Assoc
 import NutsProofs.Props.C04
 import NutsProofs.Lemmas.BPTreeRefine
 import NutsProofs.Lemmas.KVRefine
+import NutsProofs.Lemmas.Hints
 namespace NutsProofs.C01
 open Nuts Nuts.Model Nuts.Model.DB NutsProofs
 
@@ -270,6 +271,48 @@ theorem C01_reads_refine_ordered_map (opt0 : Opts) (ops : List Op) (hok : OpsOk 
   have := reads_refine s hinv hm hL now hn b
   simp only [hspec] at this
   exact this
+
+open NutsProofs.Reopen NutsProofs.KVRefine NutsProofs.Hints in
+/-- **C01 (both RAM index modes, every history).** The same statement without the restriction to the
+key+value mode: whatever index mode the database was opened with (`HintKeyAndRAMIdxMode` fetches every value
+through its hint from the data file — `Hints.hint_reads_back`: along every history the files are packed and
+every hint addresses the record it was made for), `Get`, `GetAll` and `RangeScan` are the spec's reads of the
+ordered map with TTL after the same puts and deletes. -/
+theorem C01_reads_refine_ordered_map_both_modes (opt0 : Opts) (ops : List Op) (hok : OpsOk (openDB opt0 []).1 ops)
+    (hrec : OpsRecOk ops) (now : Nat) (hn : now < 2 ^ 64) (b : Bytes) :
+    let s := ops.foldl stepOp (openDB opt0 []).1
+    let spec : Nuts.Spec.DB.SpecDB := { kv := specOfOps ops }
+    (∀ k, (DB.get s b k now).map (Option.map (·.value)) =
+        match Nuts.Spec.DB.kvGet spec b k now with | some v => .ok (some v) | none => .err) ∧
+    ((getAll s b now).map pairsOf =
+        if Nuts.Spec.DB.liveOf spec b now = [] then .err else .ok (Nuts.Spec.DB.liveOf spec b now)) ∧
+    (∀ st en, (rangeScan s b st en now).map pairsOf =
+        if bcmp st en == .gt then .err
+        else if ((Nuts.Spec.DB.liveOf spec b now).filter fun x => ble st x.1 && ble x.1 en) = [] then .err
+        else .ok ((Nuts.Spec.DB.liveOf spec b now).filter fun x => ble st x.1 && ble x.1 en)) := by
+  intro s spec
+  have hinv : LogInv s := logInv_ops ops _ (logInv_init opt0) hok
+  have hpk : Packed s := packed_ops ops _ (logInv_init opt0) (packed_init opt0) hok
+  have hlog : (allRecs s.files).map (·.1) = logOf ops := by
+    have h0 : (allRecs (openDB opt0 []).1.files).map (·.1) = [] := by simp [openDB, fileEnsure, allRecs]
+    have := log_of_ops ops _ (logInv_init opt0) hok
+    rw [h0, List.nil_append] at this
+    exact this
+  have hL : ∀ x ∈ allRecs (withMode0 s).files, RecOk x.1 := by
+    intro x hx
+    apply logOf_recOk ops hrec
+    rw [← hlog]; exact List.mem_map.mpr ⟨x, hx, rfl⟩
+  have hspec : specOfLog ((allRecs (withMode0 s).files).map (·.1)) = specOfOps ops := by
+    show specOfLog ((allRecs s.files).map (·.1)) = _
+    rw [hlog]; exact specOfLog_logOf ops []
+  obtain ⟨hg, ha, hr, _⟩ := reads_mode_independent s hinv hpk
+  have := reads_refine (withMode0 s) (logInv_withMode0 s hinv) rfl hL now hn b
+  simp only [hspec] at this
+  obtain ⟨t1, t2, t3⟩ := this
+  refine ⟨?_, ?_, ?_⟩
+  · intro k; rw [← value_vis, hg b k now, value_vis]; exact t1 k
+  · rw [← pairs_visL, ha b now, pairs_visL]; exact t2
+  · intro st en; rw [← pairs_visL, hr b st en now, pairs_visL]; exact t3 st en
 
 /-- a one-record transaction for the witness below: `Put(bucket a, key k, 16 bytes)` / `Delete`, id `id` -/
 def wPut (id k : Nat) : List Rec := [{ (mkRec [97] [k.toUInt8] (List.replicate 16 120) flagSet dsKV) with txid := id }]
